@@ -252,9 +252,16 @@ func (l *Lexer) peekChar() byte {
 	return l.input[l.readPosition]
 }
 
+func (l *Lexer) peekChar2() byte {
+	if l.readPosition+1 >= len(l.input) {
+		return 0
+	}
+	return l.input[l.readPosition+1]
+}
+
 func (l *Lexer) prevChar() byte {
 	if l.readPosition < 2 {
-		return l.input[l.readPosition-1]
+		return 0
 	}
 	return l.input[l.readPosition-2]
 }
@@ -308,15 +315,15 @@ func (l *Lexer) readHTML() string {
 	position := l.position
 
 	for l.ch != 0 {
-		if l.ch == '\\' && l.prevChar() == '\\' && l.peekChar() == '<' {
-			// escape escaping
+		if l.ch == '\\' && l.prevChar() == '\\' && l.peekChar() == '<' && l.peekChar2() == '%' {
+			// escape escaping: \\<% is one backslash followed by a live tag
 			l.readChar()
 			x := l.input[position : l.position-1]
-			return x
+			return strings.Replace(x, "\\<%", "<%", -1)
 		}
 
 		// allow for expression escaping using \<% foo %>
-		if l.ch == '\\' && l.peekChar() == '<' {
+		if l.ch == '\\' && l.peekChar() == '<' && l.peekChar2() == '%' {
 			l.readChar()
 			l.readChar()
 		}
